@@ -263,6 +263,9 @@ class Normaliser:
             changed = sum(canonical_idioms(tree) for tree in trees.values())
             return world_from_trees(world, trees) if changed else world
         if self.functions_only:
+            # phase A0: `name = staticmethod(f)` in a class body, for a method name the rules know and a module-level
+            # function f they do not: the method is written out again and calls of f are addressed to it
+            self._materialise_aliases(trees)
             # phase A: calls of unknown module-level functions, everywhere (class decorators included): needs no class table
             self.contexts = {}
             for name, tree in trees.items():
@@ -292,6 +295,45 @@ class Normaliser:
         for tree in trees.values():
             canonical_idioms(tree)
         return world_from_trees(world, trees)
+
+    def _materialise_aliases(self, trees: dict[str, ast.Module]) -> None:
+        for modname, tree in trees.items():
+            funcs = {n.name: n for n in tree.body if isinstance(n, ast.FunctionDef)}
+            redirects: dict[str, tuple[str, str]] = {}
+            for cnode in [n for n in tree.body if isinstance(n, ast.ClassDef)]:
+                for i, st in enumerate(list(cnode.body)):
+                    if not (isinstance(st, ast.Assign) and len(st.targets) == 1 and isinstance(st.targets[0], ast.Name)):
+                        continue
+                    name = st.targets[0].id
+                    v = st.value
+                    kind = None
+                    if isinstance(v, ast.Call) and isinstance(v.func, ast.Name) and v.func.id in ('staticmethod', 'classmethod') and len(v.args) == 1 and isinstance(v.args[0], ast.Name):
+                        kind, fname = v.func.id, v.args[0].id
+                    else:
+                        continue
+                    f = funcs.get(fname)
+                    if f is None or self.func_unknown(f'{modname}.{cnode.name}.{name}') or not self.func_unknown(f'{modname}.{fname}'):
+                        continue
+                    method = clone(f, modname)
+                    method.name = name
+                    method.decorator_list = [ast.Name(id=kind, ctx=ast.Load(), lineno=st.lineno, col_offset=st.col_offset)]
+                    method.decorator_list[0]._omod = modname  # type: ignore[attr-defined]
+                    cnode.body[cnode.body.index(st)] = method
+                    redirects[fname] = (cnode.name, name)
+            if not redirects:
+                continue
+            # calls of the module-level function become calls of the method (including inside the materialised methods)
+            for n in ast.walk(tree):
+                if isinstance(n, ast.Call) and isinstance(n.func, ast.Name) and n.func.id in redirects:
+                    cname, mname = redirects[n.func.id]
+                    base = ast.Name(id=cname, ctx=ast.Load(), lineno=n.func.lineno, col_offset=n.func.col_offset)
+                    base._omod = modname  # type: ignore[attr-defined]
+                    attr = ast.Attribute(value=base, attr=mname, ctx=ast.Load(), lineno=n.func.lineno, col_offset=n.func.col_offset)
+                    attr._omod = modname  # type: ignore[attr-defined]
+                    n.func = attr
+            # the module-level originals are no longer referenced by name inside the module: drop them if nothing else does
+            names_used = {x.id for x in ast.walk(tree) if isinstance(x, ast.Name)}
+            tree.body = [n for n in tree.body if not (isinstance(n, ast.FunctionDef) and n.name in redirects and n.name not in names_used)]
 
     def _drop_orphans(self, trees: dict[str, ast.Module]) -> None:
         """Definitions the rules do not know and that nothing refers to any more (every call was inlined) are removed:
@@ -548,6 +590,28 @@ class Normaliser:
                 if expr is not None:
                     self._replace(st, call, expr)
                     return [st]
+        # 1a. a reference (not a call) to an unknown module-level function that is a single return: the lambda it abbreviates
+        for root in heads:
+            called = {id(n.func) for n in ast.walk(root) if isinstance(n, ast.Call)}
+            for ref in [n for n in ast.walk(root) if isinstance(n, ast.Name) and isinstance(n.ctx, ast.Load) and id(n) not in called]:
+                module = self._module_of_node(ref)
+                q = self.world.qualify(module, ref.id)
+                node = self.world.lookup(q) if q else None
+                if not (isinstance(node, ast.FunctionDef) and q and self.func_unknown(self.world.canonical(q)) and not isinstance(getattr(node, '_parent', None), ast.ClassDef)):
+                    continue
+                body = _docless(node.body)
+                a = node.args
+                if node.decorator_list or len(body) != 1 or not isinstance(body[0], ast.Return) or body[0].value is None or a.vararg or a.kwarg or a.kwonlyargs or a.defaults:
+                    continue
+                omod = node._module.name
+                lam = ast.Lambda(args=ast.arguments(posonlyargs=[], args=[ast.arg(arg=x.arg) for x in a.posonlyargs + a.args], kwonlyargs=[], kw_defaults=[], defaults=[]),
+                                 body=clone(body[0].value, omod))
+                for x in ast.walk(lam):
+                    if not getattr(x, '_omod', None):
+                        x._omod = omod  # type: ignore[attr-defined]
+                self._mark(lam, ref)
+                self._replace(st, ref, lam)
+                return [st]
         # 1b. bound-method references to unknown methods: a nested function takes their place
         for root in heads:
             for ref in [n for n in ast.walk(root) if isinstance(n, ast.Attribute) and isinstance(n.ctx, ast.Load)]:
